@@ -547,31 +547,50 @@ def run(ctx):
                         % dist["tokens_differing_from_model_but_accepted"])
     if ctx.thorough:
         sweep(ctx, res)
-    res["rule"] = ("caption sets of 1-3 languages, 1-6 captions: times from the carry grid {0,1,999,1000,999999,10^6,"
-                   "59999999,60*10^6,3599999999,3600*10^6,86399999999,...}+-1, uniform integers below 24 h, float times read by the "
-                   "real SCCReader from generated pop-on streams (drop and non-drop), floats computed like the SCC reader "
-                   "(frames/30[*1001/1000]*10^6), grid +- {1/4,1/3,1/2,3/4}; runs of 1-4 equal spans, "
-                   "near-miss spans sharing only start or end, touching cues, captions with two layouts (WebVTT split). "
-                   "Non-trivial: distinct (writer, start, end) with start >= 1 min or a sub-millisecond part; SAMI lists "
-                   "with >= 2 cues.")
+    res["rule"] = ("caption sets of 1-3 languages, 1-6 captions, EVERY language arbitrary (runs, overlaps, unsorted, "
+                   "zero-length): times from the carry grid {0,1,999,1000,999999,10^6,59999999,60*10^6,3599999999,3600*10^6,"
+                   "86399999999,...}+-1, uniform integers below 24 h, float times read by the real SCCReader from generated "
+                   "pop-on streams (drop and non-drop), floats computed like the SCC reader (frames/30[*1001/1000]*10^6), "
+                   "grid +- {1/4,1/3,1/2,3/4}, int / float spellings of equal spans; runs of 1-4 equal spans, near-miss "
+                   "spans sharing only start or end, touching cues, node / layout sequences with up to 4 layout groups in "
+                   "every language. 15 writer configurations: SRT, WebVTT, MicroDVD, DFXP, legacy DFXP, single-position "
+                   "DFXP with their options varied (relativize, fit_to_screen, video size, write_inline_positioning, "
+                   "force=, lang=, default_positioning). Every language of every document is observed (SRT sections, "
+                   "MicroDVD lines split by the caption counts, surplus lines kept); WebVTT writes one language (declared "
+                   "decision). Oracle: ok_cues - SRT / legacy / single-position MAY merge runs, WebVTT MAY repeat a cue, "
+                   "DFXP / MicroDVD exactly one cue per caption. Structural differences from the model (cue counts, SAMI "
+                   "sequence) are correspondence disagreements, spelling differences are counted. SAMI sets that are not "
+                   "timelines (overlapping / unsorted / repeated cues in a language): own failure-keyed kind, known "
+                   "finding. Non-trivial: distinct (writer, start, end) with start >= 1 min or a sub-millisecond part; SAMI "
+                   "lists with >= 2 cues.")
     res["clauses"] = {
         "theorem": ["shared formatter / WebVTT formatter: printed fields parse (independent parser) to floor(rhe t/1000) ms, "
                     "2/2/2/3 digits, MM<60, SS<60, for all 0 <= t < 24 h; rhe t = t on integers; value accepted by the spec",
-                    "MicroDVD frames and SAMI ms are the floors, printed as integer literals",
-                    "SAMI sync rule over all caption lists", "SRT and legacy/single-position cues = maximal runs",
-                    "DFXP one <p> per caption, MicroDVD one line per caption, WebVTT one cue per layout group with the "
-                    "caption's times (models satisfy ok_cues)"],
-        "correspondence_only": ["binary64 int(t*25.0/1e6) of MicroDVD (model exact; two-valued float inputs counted)",
+                    "MODEL MEETS ORACLE for all five writer kinds: the token lists of the SRT (merge loop), legacy / "
+                    "single-position (merge_concurrent_captions), DFXP, MicroDVD and WebVTT (layout groups) models satisfy "
+                    "the extracted oracle ok_cues on every caption list with times in [0, 24 h) "
+                    "(C02_*_model_meets_oracle); SAMI: C02_sami_write_ok",
+                    "SAMI sync rule over all caption lists (C02_sami_sync_rule, rule stated in spec/)",
+                    "SRT and legacy/single-position cues = maximal runs"],
+        "definitional_or_partial": ["C02_mdvd_frames_floor_partial, C02_sami_start_integer_partial: model and spec are the "
+                                    "same exact-rational floor; content = the decimal printer round trip; the binary64 "
+                                    "computation of the real writers is NOT modelled",
+                                    "C02_vtt_group_count: describes the model's grouping loop (1 + layout changes)",
+                                    "C02_acc_ms_int, C02_acc_frames_int, C02_acc_ms_respects_equality: spec-internal",
+                                    "C02_sami_float_start_refuted, C02_sami_blank_after_ms0_refuted: history (pre-fix "
+                                    "variants of the model)"],
+        "correspondence_only": ["binary64 int(t*25.0/1e6) of MicroDVD and int(t // 1000) of SAMI",
                                 "token extraction through lxml / html.parser / block splitters",
-                                "the real DFXP / WebVTT writers print exactly the cues of the caption-list models "
-                                "(C02_dfxp_one_p_per_caption, C02_vtt_cues_same_times are theorems on the models)",
+                                "that the real writers print the cues of the caption-list models (cue counts compared: "
+                                "a difference is a disagreement)", "writer options do not touch the times",
                                 "SAMI placement of syncs of further languages (bs4 find / insert)"]}
     res["samples"] = [{"spans": [[repr(s), repr(e)] for (s, e) in cases[0][0][0]]}]
     return res
 
 
 def sweep(ctx, res):
-    """thorough: every millisecond / frame boundary neighbourhood for integer times through SRT, WebVTT, MicroDVD"""
+    """thorough: 891 sampled seconds (every 97th) x 3 anchors (second start, last microsecond, a frame boundary) x {-1,0,+1}
+    through SRT, WebVTT, MicroDVD - a sample, NOT every frame boundary (DESIGN.md 7/C02 promised more than is done)"""
     for base in range(0, 86400, 97):
         spans = []
         for k in (base * 10**6, base * 10**6 + 999999, base * 10**6 + 40000 * 7):
